@@ -15,7 +15,7 @@ def check(chk, thorough=False):
     chk.run('C14.b', 'R-FLOW', 'reported session parameters are the peer-announced node id and MRUs and the negotiated keepalive', lambda ob: c14b(tree, ob), floor=4)
     chk.run('C14.c', 'R-CLAMP', 'send segment size never exceeds the peer segment MRU, also while adapting (= C04.e)', lambda ob: c04e(tree, ob), floor=2)
     chk.run('C14.d', 'R-PAIR', 'every send restarts both timers, every receive restarts the idle timer; timeouts send KEEPALIVE / start idle termination; close stops both', lambda ob: c14d(tree, ob), floor=8)
-    chk.run('C14.e', 'R-ESCAPE', 'an endpoint already terminating whose idle timer fires closes instead of raising (= C09.e)', lambda ob: c09e(tree, ob), floor=3)
+    chk.run('C14.e', 'R-ESCAPE', 'an endpoint already terminating whose idle timer fires closes instead of raising (= C09.e)', lambda ob: c09e(tree, ob, user_entry=False), floor=3)
 
 
 def _is_ms(expr, attr):
@@ -97,16 +97,62 @@ def c14b(tree, ob):
     ka = [s for (f, s, k, v2) in stores_to_self_attr(msgr, '_keepalive_time') if f is fv.func]
     if ka and not fv.dominates(ka[0], st)[0]:
         ob.violate(SESS, fv.qual, 'keepalive=self._keepalive_time', 'the keepalive is reported before it was negotiated', st)
+    # ... and what the D-Bus method hands out is the record, through value-preserving conversions only
+    fg = FuncView(tree, SESS, 'ContactHandler.get_session_parameters')
+    loops = [n for n in walk_local(fg.func) if isinstance(n, ast.For) and 'self._sess_parameters' in src(n.iter)]
+    lp = one(loops, 'loop over the recorded parameters in get_session_parameters', ob)
+    vname = lp.target.elts[1].id if isinstance(lp.target, ast.Tuple) and len(lp.target.elts) == 2 and isinstance(lp.target.elts[1], ast.Name) else None
+    ob.require(vname is not None, 'unrecognised loop target in get_session_parameters')
+    bad = []
+    for n in walk_local(lp):
+        if isinstance(n, (ast.Assign, ast.AugAssign)) and any(src(t) == vname for t in (n.targets if isinstance(n, ast.Assign) else [n.target])):
+            v = n.value
+            okconv = isinstance(n, ast.Assign) and isinstance(v, ast.Call) and len(v.args) == 1 and not v.keywords and src(v.args[0]) == vname and \
+                (dotted(v.func) or '') in ('str', 'int', 'bool', 'dbus.UInt64', 'dbus.UInt32', 'dbus.UInt16', 'dbus.Int64', 'dbus.String', 'dbus.Boolean')
+            if okconv and (dotted(v.func) or '') in ('dbus.UInt32', 'dbus.UInt16') :
+                okconv = False  # too narrow for the 64-bit MRUs
+            if not okconv:
+                bad.append(n)
+    if bad:
+        ob.violate(SESS, fg.qual, src(bad[0]), 'a negotiated parameter is altered on its way to the caller (the MRUs go up to 2^64-1: the peer transfer MRU is reported wrongly in every default session)', bad[0])
+    else:
+        ob.site(SESS, lp, 'get_session_parameters hands out the recorded values through value-preserving conversions only')
 
 
 def c14d(tree, ob):
     fv = FuncView(tree, SESS, 'Messenger.send_message')
-    for meth in ('_keepalive_reset', '_idle_reset'):
-        calls = method_calls(fv.func, meth, 'self')
-        if calls and fv.cfg.must_pass(fv.cfg.entry, fv.cfg.exit, {fv.node(c) for c in calls}, include_exc=False)[0]:
-            ob.site(SESS, calls[0], 'send_message always calls ' + meth)
-        else:
-            ob.violate(SESS, fv.qual, meth, 'a sent message does not restart the {} timer'.format('keepalive' if 'keep' in meth else 'idle'), fv.func)
+    calls = method_calls(fv.func, '_keepalive_reset', 'self')
+    if calls and fv.cfg.must_pass(fv.cfg.entry, fv.cfg.exit, {fv.node(c) for c in calls}, include_exc=False)[0]:
+        ob.site(SESS, calls[0], 'send_message always calls _keepalive_reset')
+    else:
+        ob.violate(SESS, fv.qual, '_keepalive_reset', 'a sent message does not restart the keepalive timer', fv.func)
+    # idle timer: restarted by every message sent while established (traffic in either direction); once terminating the
+    # endpoint must not defer its own idle close with the KEEPALIVEs it keeps sending
+    calls = method_calls(fv.func, '_idle_reset', 'self')
+    nodes = {fv.node(c) for c in calls}
+    missed = [(n, lab, f) for (n, lab, f) in fv.exit_facts()
+              if ('self._in_term', True) not in f and not (calls and (n in nodes or fv.cfg.must_pass(fv.cfg.entry, n, nodes, include_exc=False)[0]))]
+    if not calls or missed:
+        ob.violate(SESS, fv.qual, '_idle_reset', 'a sent message does not restart the idle timer', fv.func)
+    else:
+        ob.site(SESS, calls[0], 'send_message restarts the idle timer while not terminating')
+    late = [c for c in calls if not fv.has(c, 'self._in_term', False)]
+    if late:
+        ob.violate(SESS, fv.qual, '_idle_reset() while terminating', 'every message sent restarts the idle timer also while terminating: with a keepalive interval below the idle time the KEEPALIVEs '
+                   'this side keeps sending re-arm it for ever, and an endpoint whose peer has gone silent never closes', late[0])
+    else:
+        ob.site(SESS, calls[0] if calls else fv.func, 'own transmissions do not defer the idle close once terminating')
+    # ... so the SESS_TERM itself arms it one last time (else an idle-timeout termination that is never answered never closes)
+    ft = FuncView(tree, SESS, 'Messenger.send_sess_term')
+    snd = one(method_calls(ft.func, 'send_message', 'self'), 'send in send_sess_term', ob)
+    arms = {ft.node(c) for c in method_calls(ft.func, '_idle_reset', 'self')}
+    if late:
+        ob.site(SESS, snd, 'the SESS_TERM send re-arms the idle timer through send_message')
+    elif arms and ft.cfg.must_pass(ft.node(snd), ft.cfg.exit, arms, include_exc=False)[0]:
+        ob.site(SESS, snd, 'send_sess_term arms the idle timer behind the SESS_TERM')
+    else:
+        ob.violate(SESS, ft.qual, 'send_message(SESS_TERM) without a following _idle_reset()', 'after this side sent SESS_TERM no idle timer is running (the expired one was cleared, transmissions no longer '
+                   're-arm it): a termination that the peer never answers never ends by closing', snd)
     fv = FuncView(tree, SESS, 'Messenger.recv_raw')
     calls = method_calls(fv.func, '_idle_reset', 'self')
     ok, wit = fv.cfg.must_pass(fv.cfg.entry, fv.cfg.exit, {fv.node(c) for c in calls}, include_exc=False) if calls else (False, None)
